@@ -70,7 +70,7 @@ func uniq(s []string) []string {
 func TestC09(t *testing.T) {
 	rep := lib.NewReport("C09", "model_checking")
 	defer rep.Finish(t)
-	rep.Rule = "(a) all interleavings of the metadata store calls of 2..4 concurrent CreateRepo of one name (+ a prefix-related name); distinct = distinct (scenario, winner) outcomes"
+	rep.Rule = "(b) histories over repos {a,ab,b} with 0..2 bundles sharing contents, labels, and one bundle of 1001 files, followed by DeleteRepo(a) / RenameRepo(a->c) / RenameRepo(a->ab) / DeleteEntriesFromRepo(a,S) for every S of {p,q,absent}: store diff confined to repository a (+c), other repositories observably unchanged (listings, labels, full downloads), rename preserves ids/entries/labels, delete-files leaves exactly old minus S and every bundle still downloads; (a) all interleavings of the metadata store calls of 2..4 concurrent CreateRepo of one name (+ a prefix-related name); distinct = distinct (scenario, winner) outcomes"
 	scs := [][]string{{"a", "a"}, {"a", "a", "a"}, {"a", "a", "ab"}}
 	if lib.Thorough() {
 		scs = append(scs, []string{"a", "a", "a", "a"}, []string{"a", "ab", "a", "ab"})
@@ -80,4 +80,5 @@ func TestC09(t *testing.T) {
 		e.Explore(t, rep)
 		rep.Set("create"+fmt.Sprint(names)+"_executions", e.Execs)
 	}
+	c09bRun(rep)
 }
